@@ -51,6 +51,31 @@ fn gate(sh: &Shared, t: usize) {
     c.parked[t] = false;
 }
 
+/// the shared filesystem: a Memfs, directly or wrapped in the Vfs enum (C13)
+enum Sfs {
+    Direct(Memfs),
+    Enum(Vfs),
+}
+impl Sfs {
+    fn new(route_enum: bool) -> Sfs {
+        if route_enum { Sfs::Enum(Vfs::memfs()) } else { Sfs::Direct(Memfs::new()) }
+    }
+    fn call(&self, c: &Value) -> Value {
+        match self {
+            Sfs::Direct(m) => apply(m, c),
+            Sfs::Enum(v) => apply(v, c),
+        }
+    }
+    fn mem(&self) -> &Memfs {
+        match self {
+            Sfs::Direct(m) => m,
+            Sfs::Enum(Vfs::Memfs(m)) => m,
+            _ => unreachable!(),
+        }
+    }
+}
+static ROUTE_ENUM: AtomicBool = AtomicBool::new(false);
+
 fn default_tree(m: &Memfs) {
     m.mkdir_p("/a/c").unwrap();
     m.write_all("/f", b"0").unwrap();
@@ -85,6 +110,8 @@ fn alphabet() -> Vec<Value> {
         call("paths", "/a", ""),
         call("all_paths", "/", ""),
         call("files", "/", ""),
+        call_ls("append_line", "/f", &["L"]),
+        call_ls("write_lines", "/g", &["a", "b"]),
     ]
 }
 
@@ -105,8 +132,8 @@ fn run_schedule(sh: &Arc<Shared>, prog: &[Vec<Value>], prefix: &[usize]) -> (Val
             curcall: vec![0; n],
         };
     }
-    let memfs = Arc::new(Memfs::new());
-    default_tree(&memfs);
+    let memfs = Arc::new(Sfs::new(ROUTE_ENUM.load(Ordering::SeqCst)));
+    default_tree(memfs.mem());
     sh.active.store(true, Ordering::SeqCst);
     let results: Arc<Mutex<Vec<Vec<Value>>>> = Arc::new(Mutex::new(prog.iter().map(|_| vec![]).collect()));
     let mut handles = vec![];
@@ -119,7 +146,7 @@ fn run_schedule(sh: &Arc<Shared>, prog: &[Vec<Value>], prefix: &[usize]) -> (Val
                     sh2.m.lock().unwrap().curcall[t] = i;
                 }
                 gate(&sh2, t); // invoke gate
-                let r = apply(&*m2, c);
+                let r = m2.call(c);
                 res2.lock().unwrap()[t].push(r);
             }
             TID.with(|x| x.set(usize::MAX));
@@ -172,7 +199,7 @@ fn run_schedule(sh: &Arc<Shared>, prog: &[Vec<Value>], prefix: &[usize]) -> (Val
         let _ = h.join();
     }
     let c = sh.m.lock().unwrap();
-    let fin = memproj::project(&memfs);
+    let fin = memproj::project(memfs.mem());
     let res = results.lock().unwrap().clone();
     let rec = json!({"k": "s", "prog": prog, "sched": sched.iter().map(|x| x + 1).collect::<Vec<_>>(), "gates": c.gates, "kinds": c.kinds,
         "res": res, "final": fin.clone(), "nested": if c.nested { "t" } else { "f" }, "deadlock": "f", "poisoned": fin["po"]});
@@ -210,6 +237,8 @@ fn main() {
     silence_panics();
     limit_memory(4 << 30);
     let mode = arg_or("mode", "all2x1");
+    ROUTE_ENUM.store(arg_or("route", "direct") == "enum", Ordering::SeqCst);
+    let stride = arg_u64("stride", 1);
     let seed = arg_u64("seed", 1);
     let worker = arg_u64("worker", 0);
     let workers = arg_u64("workers", 1);
@@ -278,7 +307,7 @@ fn main() {
             for a in &alpha {
                 for b in &alpha {
                     pid += 1;
-                    if (pid - 1) % workers != worker {
+                    if (pid - 1) % stride != 0 || ((pid - 1) / stride) % workers != worker {
                         continue;
                     }
                     total += explore(&sh, &[vec![a.clone()], vec![b.clone()]], &mut out, pid, &pr, 5000);
